@@ -97,8 +97,12 @@ class OwnHooks(Hooks):
         prog = self.prog
         if i.op == 'assign':
             dk = expr_key(i.dst)
-            facts = frozenset(x for x in facts if not (isinstance(x, tuple) and x[0] == 'pend' and x[1] == dk))
+            facts = frozenset(x for x in facts if not (isinstance(x, tuple) and x[0] in ('pend', 'tmpv') and x[1] == dk))
             d = i.dst
+            if d.k == 'ref' and d.x and d.x.get('tmp') and d.v in self.flag_tmps():
+                cv = const_value(i.src, prog)
+                if cv is not None:
+                    facts = facts | {('tmpv', d.v, 1 if cv else 0)}
             if d.k == 'member' and d.v == 'owner':
                 cv = const_value(i.src, prog)
                 if cv:
@@ -219,6 +223,23 @@ class OwnHooks(Hooks):
         for cb in self.on_ret:
             cb(b, term, facts)
 
+    def flag_tmps(self):
+        """short-circuit temporaries that are passed as ownership-flag arguments"""
+        if getattr(self, '_ft', None) is None:
+            out = set()
+            for b in self.f.blocks:
+                for i in b.ins:
+                    if i.op == 'call' and call_target(i) in self.r.flag_params:
+                        for pi in self.r.flag_params[call_target(i)]:
+                            if pi < len(i.args):
+                                a = strip_casts(i.args[pi])
+                                while a.k == 'cast':
+                                    a = strip_casts(a.c[0])
+                                if a.k == 'ref' and a.x and a.x.get('tmp'):
+                                    out.add(a.v)
+            self._ft = out
+        return self._ft
+
     def loop_classes(self):
         """loop header block id -> component classes for which the loop body calls a copy helper on every iteration
         (the helper call dominates the back edge; its failure leaves the function)"""
@@ -257,6 +278,7 @@ class OwnRules(object):
         self.eng = eng
         self.helpers = copy_helpers(eng, self.irp)
         self._engine_ok = {}
+        self.flag_params = ownership_flag_params(eng, self.irp)
 
     def func_analysis(self, f):
         c = getattr(self, '_fa', None)
@@ -337,8 +359,12 @@ def run_rules(ctx, chk, eng):
     chk.rule('inplace-guarded', 'every call of a function that writes through a `const URI_CHAR *` text pointer is reached '
              'only with the URI\'s owner flag true, or after the same range was replaced by a fresh copy on that path '
              '(copy helpers succeed with "fresh or empty"), or hands on its own parameter', floor=16)
+    chk.rule('ownership-flag', 'an integer argument that guards the release of segment texts in the callee (found by the effect '
+             'analysis) is true exactly when the URI owns its text or the texts were replaced by fresh copies on that path',
+             floor=4)
     engines_seen = set()
     writers = const_text_writers(eng, irp)
+    chk.analysed['ownership_flag_params'] = {k: {str(a): b for a, b in v.items()} for k, v in R.flag_params.items()}
     chk.analysed['const_text_writers'] = sorted(writers)
     chk.analysed['copy_helpers'] = sorted(R.helpers)
     for name, f in sorted(irp.funcs.items()):
@@ -350,8 +376,10 @@ def run_rules(ctx, chk, eng):
                          and i.src.k == 'bin' and const_value(i.src.c[1], prog) is not None
                          for b in f.blocks for i in b.ins)
         calls_writer = any(i.op == 'call' and call_target(i) in writers for b in f.blocks for i in b.ins)
-        if not (has_owner_set or has_setbit or calls_writer):
+        calls_flag = any(i.op == 'call' and call_target(i) in R.flag_params for b in f.blocks for i in b.ins)
+        if not (has_owner_set or has_setbit or calls_writer or calls_flag):
             continue
+        flagres = {}
         h = OwnHooks(R, f)
         owner_bad = {}
         owner_ok = {}
@@ -375,6 +403,40 @@ def run_rules(ctx, chk, eng):
                     owner_ok[i.loc] = oks
                 else:
                     owner_bad[i.loc] = oks
+            if i.op == 'call' and call_target(i) in R.flag_params:
+                t = call_target(i)
+                for pi, cls in R.flag_params[t].items():
+                    if pi >= len(i.args):
+                        continue
+                    a = strip_casts(i.args[pi])
+                    while a.k == 'cast':
+                        a = strip_casts(a.c[0])
+                    need = ('owner' in facts) or (('fresh', cls) in facts)
+                    val = None          # True / False / 'owner' (exactly the owner flag) / 'param' / None unknown
+                    cv = const_value(a, prog)
+                    if cv is not None:
+                        val = bool(cv)
+                    elif a.k == 'member' and a.v == 'owner':
+                        val = True if 'owner' in facts else (False if 'notowner' in facts else 'owner')
+                    elif a.k == 'ref' and a.x and a.x.get('tmp'):
+                        for x in facts:
+                            if isinstance(x, tuple) and x[0] == 'tmpv' and x[1] == a.v:
+                                val = bool(x[2])
+                    elif a.k == 'ref' and a.v in f.param_types:
+                        val = 'param'
+                    okk = True
+                    why = ''
+                    if val is True and not need:
+                        okk, why = False, 'flag is true although the URI neither owns its text nor holds fresh copies: borrowed text would be freed'
+                    elif val is False and need:
+                        okk, why = False, 'flag is false although the `%s` texts are fresh copies on this path: removed segments would leak' % cls
+                    elif val == 'owner' and ('fresh', cls) in facts:
+                        okk, why = False, 'flag is the owner flag alone although the `%s` texts may be fresh copies of a non-owner URI: removed segments would leak' % cls
+                    elif val is None:
+                        okk, why = False, 'value of the ownership flag argument cannot be related to the owner flag / done-mask'
+                    k2 = (i.loc, t, cls)
+                    if k2 not in flagres or (flagres[k2][0] and not okk):
+                        flagres[k2] = (okk, why)
             if i.op == 'call' and call_target(i) in writers:
                 t = call_target(i)
                 for pi in writers[t]:
@@ -443,6 +505,12 @@ def run_rules(ctx, chk, eng):
                         'the URI owning its text although the mask was not zero' % name, func=name)
             else:
                 chk.ok('success-means-owner', key, f.loc, '%s: %d success return states checked' % (name, succ_n[0]), func=name)
+        for (loc, t, cls), (okk, why) in sorted(flagres.items(), key=lambda x: x[0][0][1]):
+            key = 'ownflag:%s->%s(%s)' % (bn, base_name(t), cls)
+            if okk:
+                chk.ok('ownership-flag', key, loc, 'argument agrees with owner flag / fresh copies on every path', func=name)
+            else:
+                chk.bad('ownership-flag', key, loc, '%s -> %s: %s' % (name, t, why), func=name)
         for (loc, t, cls), ok in sorted(inplace.items(), key=lambda x: (x[0][0][1], str(x[0][2]))):
             key = 'inplace:%s->%s(%s)' % (bn, base_name(t), cls)
             if ok:
@@ -489,6 +557,23 @@ def run_rules(ctx, chk, eng):
                         else:
                             chk.bad('success-means-owner', key, i.loc, '%s hands a modified mask `%s` to %s: a non-zero mask may '
                                     'become zero and the URI would not be made owner' % (name, pp.expr(a), t), func=name)
+
+
+def ownership_flag_params(eng, irp):
+    """callee -> {param index: component class}: integer parameters that guard the release of text blocks
+    (the effect analysis tags those frees 'ifparam:<p>')"""
+    out = {}
+    for name, f in irp.funcs.items():
+        s = eng.summary(name)
+        if s is None:
+            continue
+        for e in s.effects.values():
+            if e.kind != 'f' or len(e.obj[1]) < 3 or e.obj[1][-1] != '*' or e.obj[1][-2] != 'first':
+                continue
+            for t in e.guarded:
+                if isinstance(t, str) and t.startswith('ifparam:') and t[8:] in f.params:
+                    out.setdefault(name, {})[f.params.index(t[8:])] = e.obj[1][-3]
+    return out
 
 
 def const_text_writers(eng, irp):
